@@ -93,7 +93,7 @@ func init() {
 		ID: "C20", Harness: "prefork",
 		Quick:    tierCfg{Runs: 4000, Procs: 8, WallS: 900},
 		Thorough: tierCfg{Runs: 2000000, Procs: 16, Seeds: 3, WallS: 3300},
-		Rule: "one evaluation = one simulated life of the whole prefork server: a master process running the real StartMaster/spawnProcess/readNamedPipe/maintainChildState, real workers (StartWorker, writeProcState, RespWriter, net/http.ReadRequest) started through the simulated exec, the real FIFO helper code, on a simulated kernel (processes, FIFO with POSIX open/EOF semantics, listening socket with shared accept queue, connections, clock); per run InitProcs 1-4, MaxProcs Init-6, Timeout 1-3 s, 1-6 clients x 1-4 requests with gaps 0-2 s, request scripts instant / 0.1-0.9 s / hang / timeout +-2 ms / handler panic; a seeded scheduler picks the next task at every step (bias to keep the current task drawn per run). Fault kinds, each enabled in a random subset of runs and bounded per run: worker SIGKILL at a drawn time, right after accept, during start-up, all workers at once; hung request; near-timeout request; slow start-up 0-2 s; client abort before/mid request; client stalling for ever after half a request (at most max-procs-1 of them); handler panic; master stalled (none of its tasks scheduled) for 0.1-2 s. After the active phase a quiet phase (no new requests or faults, fair scheduling) of Timeout x (requests+1) + 60 simulated seconds. Oracle over the kernel's ground truth: I1 live workers <= max-procs after every step; I2 live >= init-procs at the end of the quiet phase; I3 each token handled at most once, own response, no overlapping requests in one pid, healthy requests answered; I4 a hung worker is gone by start+timeout+5 s and healthy requests elsewhere are undisturbed; I5 the master does not exit unless signalled. distinct_nontrivial = distinct abstract states (live workers / busy handlers / accept backlog) plus distinct interleavings (hash of the context-switch sequence).",
+		Rule: "one evaluation = one simulated life of the whole prefork server: a master process running the real StartMaster/spawnProcess/readNamedPipe/maintainChildState, real workers (StartWorker, writeProcState, RespWriter, net/http.ReadRequest) started through the simulated exec, the real FIFO helper code, on a simulated kernel (processes, FIFO with POSIX open/EOF semantics, listening socket with shared accept queue, connections, clock); per run InitProcs 1-4, MaxProcs Init-6, Timeout 1-3 s, 1-6 clients x 1-4 requests with gaps 0-2 s (one run in eight: MaxProcs 11-26, so that full spawn batches of ten fit, with 12-25 clients sending long back-to-back requests), request scripts instant / 0.1-0.9 s / hang / timeout +-2 ms / handler panic; a seeded scheduler picks the next task at every step (bias to keep the current task drawn per run). Fault kinds, each enabled in a random subset of runs and bounded per run: worker SIGKILL at a drawn time, right after accept, during start-up, all workers at once; hung request; near-timeout request; slow start-up 0-2 s; client abort before/mid request; client stalling for ever after half a request (at most max-procs-1 of them); handler panic; master stalled (none of its tasks scheduled) for 0.1-2 s. After the active phase a quiet phase (no new requests or faults, fair scheduling) of Timeout x (requests+1) + 60 simulated seconds. Oracle over the kernel's ground truth: I1 live workers <= max-procs after every step; I2 live >= init-procs at the end of the quiet phase; I3 each token handled at most once, own response, no overlapping requests in one pid, healthy requests answered; I4 a hung worker is gone by start+timeout+5 s and healthy requests elsewhere are undisturbed; I5 the master does not exit unless signalled. distinct_nontrivial = distinct abstract states (live workers / busy handlers / accept backlog) plus distinct interleavings (hash of the context-switch sequence).",
 		Assume: []string{
 			"kernel model deviations: unbounded accept backlog, FIFO frames written whole (5 bytes <= PIPE_BUF), pids never reused, fork/FIFO-creation failure and master SIGKILL are not injected (outside the property's fault list)",
 			"the request handler is a stub whose service time the simulator scripts (simulated processes share one address space, the real playground handler would share interpreter globals that real processes do not share)",
